@@ -49,9 +49,7 @@ func importRules(c *Ctx, r *Report, prop string, mapping map[string]string) {
 		r.undecided("R0", "import:"+prop, "-", "shared rule set "+prop+" not available")
 		return
 	}
-	tmp := newReport(prop)
-	tmp.configActive = r.configActive
-	pc.run(c, tmp)
+	tmp := c.runCached(pc, r.configActive)
 	for _, o := range tmp.Obls {
 		short := strings.TrimPrefix(o.Rule, prop+"-")
 		nr, ok := mapping[short]
